@@ -163,6 +163,22 @@ func runC07(c *Ctx) {
 					}
 					src := render(st.Val)
 					okFill := strings.HasPrefix(src, "$r.Items[") && strings.HasSuffix(src, "].Timestamp") && strings.Contains(src, render(ia.Index))
+					if !okFill {
+						// `for i, item := range Items { ts[i] = item.Timestamp }`: the element copy of the same index
+						if ld, ok := st.Val.(*ssa.UnOp); ok {
+							if fa, ok := ld.X.(*ssa.FieldAddr); ok && fieldName(fa.X.Type(), fa.Field) == "Timestamp" {
+								if al, ok := fa.X.(*ssa.Alloc); ok {
+									for _, es := range storesTo(al) {
+										if el, ok := es.Val.(*ssa.UnOp); ok {
+											if eia, ok := el.X.(*ssa.IndexAddr); ok && render(eia.X) == "$r.Items" && eia.Index == ia.Index && es.Block() == st.Block() {
+												okFill = true
+											}
+										}
+									}
+								}
+							}
+						}
+					}
 					c.check(okFill, "C07.median-shape", "copy filled from the item timestamps index by index", st.Pos(), "ts[i] = Items[i].Timestamp", "copy filled with "+src)
 					filled = okFill
 					c.check(dominatesInstr(st, srt.Instr) || st.Block().Dominates(srt.Instr.Block()) || blockReaches(st.Block(), srt.Instr.Block(), nil), "C07.median-shape", "fill precedes sort", st.Pos(), "before sort", "the copy is filled after sorting")
@@ -199,6 +215,9 @@ func runC07(c *Ctx) {
 				c.check(okOrder && len(idxs) > 0, "C07.median-shape", "middle element read after sorting", e.pos(), "sort dominates the read", "the result reads the slice before it is sorted (or not at all): "+render(e.Results[0]))
 				half := "+1*div(+1*len($r.Items),2)"
 				_, odd := holds(e.Guards, wEQ("odd count", -1, t(1, `^\(len\(\$r\.Items\) % 2\)$`)))
+				if !odd {
+					_, odd = holds(e.Guards, wNE("odd count (not even)", 0, t(1, `^\(len\(\$r\.Items\) % 2\)$`)))
+				}
 				if odd {
 					c.check(len(idxs) == 1 && idxs[0] == half, "C07.median-shape", "odd count → middle element", e.pos(), "ts[l/2]", "odd count returns index "+strings.Join(idxs, ","))
 				} else {
@@ -219,8 +238,8 @@ func runC07(c *Ctx) {
 	// ---- import-door
 	if im := c.mustFn("block", "manager", "_import"); im != nil {
 		for _, e := range successAlts(im) {
-			c.requireGuard("C07.import-door", "_import success", e.pos(), e.Guards, wSame("verifyNewBlock(block, node of block.PrevID()) == nil", `^\$r\.verifyNewBlock\(\$0,\$r\.nmap\[.*\$0\.PrevID\(\).*\]\.block\)#1$`, `^nil$`))
-			c.requireGuard("C07.import-door", "_import success", e.pos(), e.Guards, wDiffer("parent node known", `^\$r\.nmap\[.*\$0\.PrevID\(\).*\]$`, `^nil$`))
+			c.requireGuard("C07.import-door", "_import success", e.pos(), e.Guards, wSame("verifyNewBlock(block, node of block.PrevID()) == nil", `^\$r\.verifyNewBlock\(\$0,\$r\.nmap\[.*\$0\.PrevID\(\).*\](#0)?\.block\)#1$`, `^nil$`))
+			c.requireGuard("C07.import-door", "_import success", e.pos(), e.Guards, wDiffer("parent node known", `^\$r\.nmap\[.*\$0\.PrevID\(\).*\](#0)?$`, `^nil$`))
 		}
 	}
 }
